@@ -342,6 +342,37 @@ theorem paramSet_expandSelf (to : Ty) (g : Generics) : (g.expandSelf to).paramSe
   funext p
   cases p <;> rfl
 
+/-! #### an item without type or const parameters gets no bound at all; more parameters never mean fewer bounds -/
+
+theorem headIn_nil (g : Bool) (segs : List Seg) : headIn [] g segs = false := by
+  unfold headIn
+  cases g <;> simp
+  cases segs with
+  | nil => rfl
+  | cons s _ => cases s <;> simp
+
+theorem mentions_nil : ∀ t : Ty, t.mentions [] = false := by
+  intro t
+  apply Ty.rec
+    (motive_1 := fun t => t.mentions [] = false)
+    (motive_2 := fun s => s.mentions [] = false)
+    (motive_3 := fun a => a.mentions [] = false)
+    (motive_4 := fun l => Seg.mentionsL [] l = false)
+    (motive_5 := fun l => Ty.mentionsL [] l = false)
+    (motive_6 := fun o => Ty.mentionsO [] o = false)
+    (motive_7 := fun l => GArg.mentionsL [] l = false)
+  case array =>
+    intro t len ih
+    cases len <;> simp [Ty.mentions, ih]
+  all_goals (intros; simp_all [Ty.mentions, Ty.mentionsO, Ty.mentionsL, Seg.mentions, Seg.mentionsL, GArg.mentions,
+    GArg.mentionsL, headIn_nil])
+
+/-- lifetimes are not "parameters" in the sense of C03: an item with lifetime parameters only gets no default bound -/
+theorem nongeneric_no_default_bounds (g : Generics) (p : Plan) (h : p.noBounds) (hg : g.paramSet = []) :
+    (p.whereClause g).types = [] := by
+  rw [(plan_default_exact g p h).1, hg]
+  simp [Plan.usedFieldTys, usedTys, mentions_nil]
+
 /-! ### the hypotheses are satisfiable, the conclusion is not trivial -/
 
 /-- `struct S<T, U> { a: Vec<T>, b: u8, c: PhantomData<U> }` with `Clone` and no attribute: the hypotheses of
